@@ -129,6 +129,66 @@ theorem C56_witness_second_opt : ¬ SingleOpt := by
   revert this
   decide
 
+/-- **C56_ttl_min** (RFC 8484 §5.1, mod_doh docs): `Cache-Control: max-age` is the smallest TTL of the Answer section —
+    it is one of the answer TTLs and no answer TTL is smaller; 0 when there is no answer.  Authority/additional
+    records do not take part. -/
+theorem C56_ttl_min (ttls : List Nat) :
+    (ttls = [] → getTTL ttls = 0) ∧ (ttls ≠ [] → getTTL ttls ∈ ttls ∧ ∀ t ∈ ttls, getTTL ttls ≤ t) := by
+  constructor
+  · intro h; subst h; rfl
+  · intro hne
+    cases ttls with
+    | nil => exact absurd rfl hne
+    | cons t rest =>
+      have h := foldl_min_spec rest t
+      simp only at h
+      obtain ⟨h1, h2, h3⟩ := h
+      refine ⟨?_, ?_⟩
+      · rcases h1 with h1 | h1
+        · simp only [getTTL, h1]; exact List.mem_cons_self ..
+        · exact List.mem_cons_of_mem _ h1
+      · intro x hx
+        rcases List.mem_cons.mp hx with rfl | hx
+        · exact h2
+        · exact h3 x hx
+
+/-- **C56_response**: a reply that packs is answered with status 200, `Content-Type: application/dns-message`,
+    `Content-Length` = the packed length and max-age = `getTTL`; one that does not pack gives an error (-> 500). -/
+theorem C56_response (ttls : List Nat) (n : Nat) :
+    dnsMsgToResponse ttls (some n) = some ⟨200, "application/dns-message", getTTL ttls, n⟩ ∧
+    dnsMsgToResponse ttls none = none := ⟨rfl, rfl⟩
+
+/-- **C56_client_addr**: the subnet option carries `ClientAddr` whenever it is set (the address mod_trust_clientip /
+    the proxy protocol established), else `RemoteAddr` (the TCP peer); never both, never a header value. -/
+theorem C56_client_addr (m : Msg) (rip : Bytes) (ca : Option Bytes) :
+    ∃ f k, (setClientSubnet (some rip) ca m).extra = m.extra ++
+      [RR.opt 4096 0 [Opt.ecs f k 0 (match ca with | some c => c | none => rip)]] := by
+  cases ca <;> exact ⟨_, _, rfl⟩
+
+/-- **C56_get_alphabet**: a `dns` value containing `+`, `/`, `=` (standard-alphabet or padded base64) or any byte
+    outside `A–Z a–z 0–9 - _` (CR/LF excepted, which Go's decoder skips) is rejected. -/
+theorem C56_get_alphabet (v : Bytes) (c : UInt8) (hc : c ∈ v) (h13 : c ≠ 13) (h10 : c ≠ 10)
+    (hbad : b64val c = none) : b64decode v = none := by
+  have : b64vals v = none := by
+    induction v with
+    | nil => simp at hc
+    | cons x xs ih =>
+      unfold b64vals
+      by_cases hx : x = 13 ∨ x = 10
+      · simp only [hx, if_true]
+        rcases List.mem_cons.mp hc with rfl | hc'
+        · rcases hx with hx | hx
+          · exact absurd hx h13
+          · exact absurd hx h10
+        · exact ih hc'
+      · simp only [hx, if_false]
+        rcases List.mem_cons.mp hc with rfl | hc'
+        · simp [hbad]
+        · cases b64val x <;> simp [ih hc']
+  simp [b64decode, this]
+
+example : b64val 43 = none ∧ b64val 47 = none ∧ b64val 61 = none := by decide
+
 /-! the code before the family fix (`cip.To16() != nil`): every IPv4 client got family 2 / 128, and a 4-byte
     address then made the message unpackable (EDNS0_SUBNET.pack: "bad address") -/
 example : familyOfOld [192, 0, 2, 1] = (2, 128) := by decide
